@@ -15,7 +15,9 @@ import (
 )
 
 // genTimeout writes M1 cases for timeoutFromHeaders:
-//   timeout \t <values> \t <result>
+//
+//	timeout \t <values> \t <result>
+//
 // values: comma-separated "x<hex>" (one per header value, in order), or "-" for no header.
 // result: "none" or the duration in nanoseconds.
 func genTimeout(rng *rand.Rand, n int, out *caseWriter) {
